@@ -5,6 +5,7 @@
 EXTENDS MCCacheStore, Json
 
 CONSTANTS Depth,
+          Bias,   \* BOOLEAN: steer random walks towards populated caches, evictions and cleanup
           NF      \* store shapes <<nchunks, failAt>> the generator may choose (bias control)
 VARIABLE hist
 
@@ -21,6 +22,8 @@ GenInit == Init /\ hist = <<>>
 \* lock is released. The generator therefore resumes blocked callers first.
 ResumePending == \E p \in Clients : pc[p] = "blocked" /\ lock[ShardOf[pend[p][2]]] = Free
 MayRun(p) == ~ResumePending \/ pc[p] = "blocked"
+Useful(k) == ~Bias \/ entries[k].present \/ (\E q \in Clients : pc[q] = "copying" /\ op[q].k = k) \/ Present = {}
+NoLimitChangeYet == \A i \in DOMAIN hist : hist[i].a # "setlimit"
 
 GenNext ==
     \/ \E p \in Clients, k \in Keys, nf \in NF :
@@ -28,22 +31,22 @@ GenNext ==
     \/ \E p \in Clients : ~ResumePending /\ StoreChunk(p) /\ Log(Rec("chunk", p, 0, 0, 0, 0, 0, 0, 0))
     \/ \E p \in Clients : ~ResumePending /\ StoreAbort(p) /\ Log(Rec("abort", p, 0, 0, 0, 0, 0, 0, 0))
     \/ \E p \in Clients : ~ResumePending /\ StoreCommit(p) /\ Log(Rec("commit", p, 0, 0, 0, 0, 0, 0, 0))
-    \/ \E p \in Clients, k \in Keys : MayRun(p) /\ Get(p, k) /\ Log(Rec("get", p, k, 0, 0, 0, 0, 0, B(p)))
-    \/ \E p \in Clients, k \in Keys : MayRun(p) /\ Delete(p, k) /\ Log(Rec("delete", p, k, 0, 0, 0, 0, 0, B(p)))
+    \/ \E p \in Clients, k \in Keys : MayRun(p) /\ Useful(k) /\ Get(p, k) /\ Log(Rec("get", p, k, 0, 0, 0, 0, 0, B(p)))
+    \/ \E p \in Clients, k \in Keys : Deletes /\ MayRun(p) /\ Useful(k) /\ Delete(p, k) /\ Log(Rec("delete", p, k, 0, 0, 0, 0, 0, B(p)))
     \/ \E h \in 1..MaxHandles : ~ResumePending /\ Read(h) /\ Log(Rec("read", 0, 0, 0, 0, h, 0, 0, 0))
     \/ \E h \in 1..MaxHandles : ~ResumePending /\ CloseH(h) /\ Log(Rec("close", 0, 0, 0, 0, h, 0, 0, 0))
-    \/ \E p \in Clients, k \in Keys, e \in BOOLEAN :
-          MayRun(p) /\ UpdateMeta(p, k, e) /\ Log(Rec("update", p, k, 0, 0, 0, IF e THEN 1 ELSE 0, 0, B(p)))
+    \/ \E p \in Clients, k \in Keys, e \in UpdVals :
+          MayRun(p) /\ Useful(k) /\ UpdateMeta(p, k, e) /\ Log(Rec("update", p, k, 0, 0, 0, IF e THEN 1 ELSE 0, 0, B(p)))
     \/ \E p \in Clients, c \in Calls :
           ~ResumePending /\ (c[1] = "store" => <<c[3], c[4]>> \in NF) /\ Block(p, c) /\ Log(Rec(c[1], p, c[2], IF c[1] = "store" THEN c[3] ELSE 0,
                                  IF c[1] = "store" THEN c[4] ELSE 0, 0,
                                  IF c[1] = "update" /\ c[3] THEN 1 ELSE 0, 0, 0))
     \/ \E k \in Keys : ~ResumePending /\ Expire(k) /\ Log(Rec("expire", 0, k, 0, 0, 0, 0, 0, 0))
     \/ \E k \in Keys : ~ResumePending /\ JanRemove(k) /\ Log(Rec("jremove", 0, k, 0, 0, 0, 0, 0, 0))
-    \/ ~ResumePending /\ JanScan /\ Log(Rec("scan", 0, 0, 0, 0, 0, 0, 0, 0))
+    \/ ~ResumePending /\ (~Bias \/ bytes >= limit \/ \E k \in Present : entries[k].exp) /\ JanScan /\ Log(Rec("scan", 0, 0, 0, 0, 0, 0, 0, 0))
     \/ ~ResumePending /\ JanEnsure /\ Log(Rec("ensure", 0, 0, 0, 0, 0, 0, 0, 0))
     \/ ~ResumePending /\ JanEvictStep /\ Log(Rec("evstep", 0, 0, 0, 0, 0, 0, 0, 0))
-    \/ \E l \in Limits : ~ResumePending /\ SetLimit(l) /\ Log(Rec("setlimit", 0, 0, 0, 0, 0, 0, l, 0))
+    \/ \E l \in Limits : ~ResumePending /\ (~Bias \/ NoLimitChangeYet) /\ SetLimit(l) /\ Log(Rec("setlimit", 0, 0, 0, 0, 0, 0, l, 0))
 
 GenSpec == GenInit /\ [][GenNext]_<<vars, hist>>
 
